@@ -698,6 +698,29 @@ static void probe_clear(int t, int with_cb)
     }
 }
 
+/* clear in the MIDDLE of a history: the table object goes on to a second (third, ...) life through a fresh resize.
+ * What clear leaves behind in the object (clean-state bit, sweep cursor, capacity) must not matter. */
+static void clear_midway(int t, int with_cb)
+{
+    const char *ph = phase_of(t);
+    const size_t live_before = vrt_lib_live();
+    const int had_array = T[t].bucket.at != NULL, total = nlive[t];
+    int i;
+    vrt_state(ph);
+    VRT_OP2("hash.clear", "t%ld cb=%ld (the table is used again afterwards)", t, with_cb);
+    clear_t = t; clear_n = 0;
+    cstl_hash_clear(&T[t], with_cb ? clear_cb : NULL);
+    if (with_cb && clear_n != total)
+        vrt_fail("hash.clear.missed-element", "clear handed over %d of %d live elements (%s)", clear_n, total, ph);
+    if (!with_cb) for (i = 0; i < nlive[t]; i++) LIVE[t][i]->where = -1;
+    nlive[t] = 0; ready[t] = 0; pending_possible[t] = 0;
+    inforce[t].n = 0; inforce[t].f = -1; keyed_since[t] = 0; sweep_len[t] = 0;
+    VRT_CHECK(cstl_hash_size(&T[t]) == 0, "hash.clear.size-not-zero", "size %zu after clear", cstl_hash_size(&T[t]));
+    VRT_CHECK(vrt_lib_live() == live_before - (had_array ? 1 : 0), "hash.clear.bucket-array-not-released",
+              "live library blocks %zu -> %zu across clear", live_before, vrt_lib_live());
+    VRT_COUNT("op.clear.then-reused");
+}
+
 /* C03 audit on a replica: every key of the universe */
 static void probe_lookup_audit(int t)
 {
@@ -877,6 +900,7 @@ static void run_random(uint64_t idx)
             continue;
         }
         else if (mode == M_LOOKUP && r < 98 && np <= 64) { probe_lookup_audit(t); continue; }
+        else if (r == 99 && vrt_below(&g, 2) == 0) { clear_midway(t, (int)vrt_below(&g, 4) != 0); continue; }
         else continue;
         st_apply(op, 1);
     }
@@ -1006,7 +1030,70 @@ static void run_bigtable(uint64_t which)
     VRT_COUNT("incr.big.cases");
     vrt_sig(0, 0xb16b16 + which);
 }
+/* Chains of thousands of nodes (few buckets, or a function that maps everything to one bucket): whatever is
+ * done per node or per bucket, nothing may be lost when such a chain is relocated piecemeal. */
+static void run_longchain(uint64_t which)
+{
+    enum { LN = 3000 };
+    struct cstl_hash H;
+    struct lelem { uint64_t pad; struct cstl_hash_node n; size_t key; int seen; } *E;
+    const int nb0 = which ? 1 : 2, nb1 = which ? 3 : 4, f1 = which ? 1 : 0;
+    size_t i, nfound;
+    int step;
+    bigkeys = 0;
+    vrt_case_note("long chains: %d elements in %d bucket(s), resized to %d buckets (f%d) and back, keyed calls in between", LN, nb0, nb1, f1);
+    E = vrt_alloc(sizeof(*E) * LN);
+    memset(E, 0x5e, sizeof(*E) * LN);
+    cstl_hash_init(&H, offsetof(struct lelem, n));
+    VRT_OP1("hash.resize", "n=%ld f0 (first)", nb0);
+    cstl_hash_resize(&H, (size_t)nb0, tr0);
+    for (i = 0; i < LN; i++) { E[i].key = 2 * i + (i == LN - 1); cstl_hash_insert(&H, E[i].key, &E[i]); }
+    for (step = 0; step < 4; step++) {
+        const size_t n = (step & 1) ? (size_t)nb0 : (size_t)nb1;
+        size_t k;
+        VRT_OP2("hash.resize", "n=%ld f%ld over long chains", n, (step & 1) ? 0 : f1);
+        cstl_hash_resize(&H, n, tramp[(step & 1) ? 0 : f1]);
+        /* keyed calls on behalf of a few keys, present and absent, while the rehash is pending */
+        for (k = 0; k < 3; k++) {
+            const size_t key = k == 0 ? E[LN - 1].key : k == 1 ? 1 : E[17 * (step + 1)].key;
+            void *r;
+            VRT_OP1("hash.find", "key=%ld (long chains, pending)", key);
+            r = cstl_hash_find(&H, key, NULL, NULL);
+            if (key == 1) { if (r != NULL) vrt_fail("hash.find.found-absent-key.long-chain", "find of an absent key returned an element"); }
+            else if (r == NULL || ((struct lelem *)r)->key != key) vrt_fail("hash.find.missed-live-element.long-chain", "find(key %zu) %s", key, r ? "returned another element" : "returned NULL");
+        }
+        /* everything is still there: by lookup and by enumeration */
+        nfound = 0;
+        for (i = 0; i < LN; i++) {
+            void *r;
+            if (i % 7 == 0 || i > LN - 40) VRT_OP1("hash.find", "key=%ld (audit, long chains)", E[i].key);
+            r = cstl_hash_find(&H, E[i].key, NULL, NULL);
+            if (r != &E[i]) vrt_fail("hash.audit.live-element-not-found.long-chain", "element with key %zu is no longer found after %d resizes over long chains (size says %zu)", E[i].key, step + 1, cstl_hash_size(&H));
+            nfound++;
+        }
+        if (cstl_hash_size(&H) != LN) vrt_fail("hash.size.long-chain", "size %zu, %d elements were inserted", cstl_hash_size(&H), LN);
+        {
+            size_t seen = 0;
+            VRT_OP0("hash.foreach_const", "long chains");
+            if (cstl_hash_foreach_const(&H, big_visit, &seen) != 0 || seen != LN)
+                vrt_fail("hash.foreach_const.missed-element.long-chain", "enumeration visited %zu of %d elements", seen, LN);
+        }
+        VRT_COUNT("longchain.rounds");
+    }
+    /* erase through the long chains, then clear */
+    for (i = 0; i < LN; i += 3) { cstl_hash_erase(&H, &E[i]); }
+    if (cstl_hash_size(&H) != LN - (LN + 2) / 3) vrt_fail("hash.erase.member.size.long-chain", "size %zu after erasing every third of %d", cstl_hash_size(&H), LN);
+    for (i = 0; i < LN; i++) {
+        void *r = cstl_hash_find(&H, E[i].key, NULL, NULL);
+        if ((r == &E[i]) != (i % 3 != 0)) vrt_fail("hash.find.after-erase.long-chain", "element %zu %s", i, (i % 3) ? "lost" : "found although erased");
+    }
+    cstl_hash_clear(&H, NULL);
+    vrt_free(E);
+    VRT_COUNT("longchain.cases");
+    vrt_sig(0, 0x10c4a1 + which);
+}
 #define NBIGT 2
+#define NLONG 2
 static uint64_t nrandom(void) { return under_memcheck() ? 48 : vrt_thorough ? 20000 : 1500; }
 static uint64_t ncases(void)
 {
@@ -1014,13 +1101,15 @@ static uint64_t ncases(void)
     if (vrt_thorough && !under_memcheck()) { scopes = thorough_scopes; nscopes = sizeof(thorough_scopes) / sizeof(scopes[0]); }
     else { scopes = quick_scopes; nscopes = sizeof(quick_scopes) / sizeof(scopes[0]); }
     if (under_memcheck()) nscopes = 3;
-    return nscopes + nrandom() + (!under_memcheck() ? NBIGT : 0);
+    return nscopes + nrandom() + (!under_memcheck() ? NBIGT + NLONG : 0);
 }
 static void run_case(uint64_t idx)
 {
+    /* the few expensive fixed cases first, so that a run capped with --max-cases still has them */
+    const uint64_t nfix = !under_memcheck() ? NBIGT + NLONG : 0;
     if (idx < (uint64_t)nscopes) run_closure((int)idx);
-    else if (idx < nscopes + nrandom()) run_random(idx - nscopes);
-    else run_bigtable(idx - nscopes - nrandom());
+    else if (idx < nscopes + nfix) { if (idx - nscopes < NBIGT) run_bigtable(idx - nscopes); else run_longchain(idx - nscopes - NBIGT); }
+    else run_random(idx - nscopes - nfix);
 }
 static void winit(void)
 {
@@ -1029,6 +1118,6 @@ static void winit(void)
     vrt_sig_name(0, "table-states");
 }
 
-static const char *const required[] = { "closure.states", "random.histories", "op.insert", "op.resize.while-pending", NULL };
+static const char *const required[] = { "closure.states", "random.histories", "op.insert", "op.resize.while-pending", "op.clear.then-reused", NULL };
 static const struct vrt_harness H = { "hash", ncases, run_case, winit, NULL, required, 16 };
 int main(int argc, char **argv) { return vrt_main(argc, argv, &H); }
